@@ -65,6 +65,12 @@ func NewReport(w *World, prop, tier string, known []KnownFinding) *Report {
 
 // Rule opens a rule; subsequent OK/Fail calls belong to it.
 func (r *Report) Rule(id, template string, floor int) {
+	for _, ru := range r.Rules {
+		if ru.ID == id {
+			r.cur = ru
+			return
+		}
+	}
 	r.cur = &Rule{ID: id, Template: template, Floor: floor, Tier: r.Tier}
 	r.Rules = append(r.Rules, r.cur)
 }
